@@ -34,6 +34,7 @@ type Model struct {
 	eachCaseRes    *loopCaseResult
 	forCaseRes     *loopCaseResult
 	newTokenUnread bool // newToken ends a token that has read nothing on the current character
+	tokposGeom     *tokposGeom
 	lexModeDone    bool
 	lexMode        *lexModePred
 	lexFresh       *iStruct
